@@ -198,6 +198,8 @@ def main(tier, only=None):
     models += [(e["family"], e["net"], False) for e in corpus.draw(int(n * 0.6) - len(models), sd)]
     models += corner_models(rng, n - len(models))
     rng.shuffle(models)
+    from .. import codec
+    codec.shim_dir()          # build the codec once, before the invocation threads start
     d = run.tmpdir("c13")
     jobs = []
     for i, (label, net, fb) in enumerate(models[:len(optrecs)]):
